@@ -51,25 +51,27 @@ class ImplTimeout(BaseException):
 CASE_TIMEOUT = 10
 
 
-class time_limit(object):
-    """SIGALRM guard around one implementation call (the checks run single-threaded in the main thread)"""
+def run_limited(fn, seconds=None):
+    """Call fn() under a repeating SIGALRM (the checks run single-threaded in the main thread).  The alarm
+    keeps firing every 20 ms after the deadline, so that an ImplTimeout swallowed by a bare `except:` in the code
+    under test is raised again until it gets out."""
+    import signal
+    seconds = CASE_TIMEOUT if seconds is None else seconds
 
-    def __init__(self, seconds=CASE_TIMEOUT):
-        self.seconds = seconds
-
-    def _raise(self, signum, frame):
+    def handler(signum, frame):
         raise ImplTimeout()
-
-    def __enter__(self):
-        import signal
-        self.old = signal.signal(signal.SIGALRM, self._raise)
-        signal.alarm(self.seconds)
-
-    def __exit__(self, *a):
-        import signal
-        signal.alarm(0)
-        signal.signal(signal.SIGALRM, self.old)
-        return False
+    old = signal.signal(signal.SIGALRM, handler)
+    signal.setitimer(signal.ITIMER_REAL, seconds, 0.02)
+    try:
+        return fn()
+    finally:
+        while True:
+            try:
+                signal.setitimer(signal.ITIMER_REAL, 0)
+                signal.signal(signal.SIGALRM, old)
+                break
+            except ImplTimeout:
+                continue
 
 
 # ------------------------------------------------------------------------------------------------
@@ -217,9 +219,13 @@ def drive(case, want_state=True):
             res['state'] = parser_state(s)
         except Unsupported as e:
             res['unsupported'] = str(e)
+    import time as _time
+    t_start = _time.time()
     try:
-        with time_limit():
-            s.SolveEquation()
+        run_limited(s.SolveEquation)
+        if _time.time() - t_start >= CASE_TIMEOUT - 0.2:
+            # the deadline fired but a bare `except:` in the code swallowed it: still a call that overran
+            res['hang'] = True
     except ImplTimeout:
         res['outcome'] = 'OtherError'
         res['raw_exc'] = 'NoReturnWithin%ds' % CASE_TIMEOUT
@@ -829,3 +835,12 @@ def write_corpus(pid, name, case, note=''):
     os.makedirs(d, exist_ok=True)
     with open(os.path.join(d, name + '.json'), 'w') as f:
         json.dump({'note': note, 'replay': {'kind': 'solve', 'case': case}}, f, indent=1, sort_keys=True)
+
+
+def guarded(fn, arg, key, rep_kind):
+    """run an implementation-only oracle under the time limit; a call that does not return is a failure"""
+    try:
+        return run_limited(lambda: fn(arg), 4 * CASE_TIMEOUT)
+    except ImplTimeout:
+        return [{'key': key, 'what': 'implementation did not return within %d s on %r' % (4 * CASE_TIMEOUT, arg),
+                 'replay': {'kind': rep_kind, 'case': arg}}]
